@@ -26,6 +26,8 @@ def levels(tier):
              "rule_patterns": ["path1"], "defaults": ["never"]},
             {"name": "wide-n2", "n": 2, "prelude": [["page", 1, False], ["we", [[0, 3]]], ["page", 2, False]], "alphabet": ["we", "addprefix", "page"],
              "defaults": ["never"], "pool": WIDE},
+            {"name": "clear-n2", "n": 2, "prelude": [["we", [[0, 3]]], ["we", [[1, 4]]], ["clear"]], "alphabet": ["we", "addprefix"],
+             "defaults": ["never"], "pool": POOL[:2]},
             {"name": "chain-n1", "n": 1, "prelude": [["we", [[0, 1]]], ["we", [[0, 2], [0, 3]]]], "alphabet": ["we", "addprefix", "page"],
              "defaults": ["never"], "pool": POOL[:3]},
         ]
